@@ -135,6 +135,18 @@ package taskfile
 //@   site NewGitNode#0 requires arg2 == insecure                                                                     [C20]
 //@   site NewHTTPNode#0 requires arg2 == insecure                                                                    [C20]
 
+// ---- C08: A local Taskfile is read WHOLE: what is parsed is the file that the node names, from its first byte to its last
+// (a Taskfile of any size - generated ones run to megabytes - keeps every task it defines)
+//@ ghost var tfFile ref scratch
+//@ func (*FileNode).Read
+//@   modifies heap
+//@   site os.Open#1 ghost tfFile := result.0
+//@   site io.ReadAll#0 requires payload(arg0) == tfFile                                                        [C08,C16]
+//@   nosite io.LimitReader                                                                                     [C08]
+//@   nosite io.ReadFull                                                                                        [C08]
+//@   nosite io.ReadAtLeast                                                                                     [C08]
+//@   nosite (*File).Read                                                                                       [C08]
+
 // ---- C08: a relative include dir is resolved against the directory of the INCLUDING Taskfile's own file -------
 //@ ghost var entryDir string scratch
 //@ ghost var dirAbs bool scratch
@@ -167,6 +179,19 @@ package taskfile
 // ---- C10: the include statements of a Taskfile are resolved with the Taskfile's variables laid OVER the
 // environment (a global var of the file beats an environment variable of the same name)
 //@ ghost var inclEnv *ast.Vars scratch
+// ... nor may WHETHER it loads: reading an included Taskfile fails only when the graph refuses the vertex, when the file
+// cannot be read, or when one of its own includes fails - never because of where the node hangs in the tree (its
+// parents are the path of whoever got there first; the other paths to a shared file are not checked at all)
+//@ ghost var inclErr error scratch
+//@ func (*Reader).include
+//@   modifies heap
+//@   blocks
+//@   init inclErr := nil
+//@   site (Graph).AddVertex#1 ghost inclErr := result
+//@   site (*Reader).readNode#1 ghost inclErr := result.1
+//@   site (*Group).Wait#1 ghost inclErr := result
+//@   ensures result != nil ==> result == inclErr                                                                [C09,C08]
+//@   nosite (Node).Parent                                                                                       [C09,C08]
 //@ func (*Reader).include$1
 //@   site env.GetEnviron#1 ghost inclEnv := result
 // (a Taskfile is read ONCE, by whichever parent reaches it first: what its includes are templated with must not
